@@ -50,6 +50,7 @@ enum {
 enum {
     ZSTD_VS_mtJobStart = 1,              /* ZSTDMT_compressionJob : a worker picked the job, nothing done yet */
     ZSTD_VS_mtAfterSerial,               /* ZSTDMT_compressionJob : serial (LDM / checksum) step done, compression not started */
+    ZSTD_VS_mtAfterChunk,                /* ZSTDMT_compressionJob : one 512 KB chunk compressed and reported, more of the job to go */
     ZSTD_VS_count
 };
 
